@@ -38,16 +38,20 @@ package cluster
 // C19: an encoded update is either gossiped (small) or handed to the reliable-channel queue (oversized); an
 // oversized update that cannot be queued is counted as dropped, never lost silently.
 //@ func (*Channel).Broadcast
-//@   props C19
+//@   props C19 C09 C10
 //@   abstract
 //@   nosafe
 //@   at call dynamic:field:send assert [small-only] called("OversizedMessage") && !ret("OversizedMessage")
 //@   ensures [small-is-gossiped] called("OversizedMessage") && !ret("OversizedMessage") ==> called("dynamic:field:send")
-//@   at call OversizedMessage assert [the-encoded-update] arg0 == ret("proto.Marshal") && ret1("proto.Marshal") == nil
-//@   at call dynamic:field:send assert [send-the-encoded-update] arg0 == ret("proto.Marshal")
-//@   at call chan.send assert [queue-the-encoded-update] arg0 == ret("proto.Marshal") && arg1 == c.msgc && called("OversizedMessage") && ret("OversizedMessage")
-//@   ensures [encoded-update-goes-out] called("proto.Marshal") && ret1("proto.Marshal") == nil ==> called("OversizedMessage")
+//@   at call OversizedMessage assert [the-encoded-update] arg0 == ret("proto.Marshal$") && ret1("proto.Marshal$") == nil
+//@   at call dynamic:field:send assert [send-the-encoded-update] arg0 == ret("proto.Marshal$")
+//@   at call chan.send assert [queue-the-encoded-update] arg0 == ret("proto.Marshal$") && arg1 == c.msgc && called("OversizedMessage") && ret("OversizedMessage")
+//@   ensures [encoded-update-goes-out] called("proto.Marshal$") && ret1("proto.Marshal$") == nil ==> called("OversizedMessage")
 //@   ensures [oversized-queued-or-counted] called("OversizedMessage") && ret("OversizedMessage") ==> (ret("select") == 0 || called("Counter).Inc"))
+//@   after call proto.Marshal$ assume res1 == nil ==> fresh(res0)
+//@   at call chan.send assert [the-queue-gets-a-buffer-of-its-own] fresh(arg0)
+//@   at call dynamic:field:send assert [the-gossip-queue-gets-a-buffer-of-its-own] fresh(arg0)
+//@   assigns nothing
 //@   noeffect dynamic:field:send
 
 // C19: the consumer of the reliable-channel queue. Every queued update spawns one sender per member reported by the
